@@ -413,7 +413,10 @@ func (x *executor) runCase(j *Job) (res Result) {
 		alive = x.step("live", []byte("live|get|tdb:live"), 0)
 	}
 	if alive {
-		res.Settled = x.waitUntil(300*time.Millisecond, func() bool { return runtime.NumGoroutine() <= g0 })
+		res.Settled = x.waitUntil(300*time.Millisecond, func() bool {
+			oq, os := x.api.VerifOpen()
+			return runtime.NumGoroutine() <= g0 && oq == 0 && os == 0
+		})
 	}
 	res.OpenQ, res.OpenS = x.api.VerifOpen()
 	res.Steps = x.steps
